@@ -84,3 +84,19 @@ def validate_trace(ndjson_path, timeout=3600):
     notes_txt = seg
     notes = sorted(set((int(a), b, c) for (a, b, c) in _NOTE.findall(notes_txt)))
     return {"last": int(m.group(1)), "total": int(m.group(2)), "notes": notes, "stats": parse_stats(out), "wall": wall, "out": out}
+
+
+def model_check_dump(module, cfg, workers=8, timeout=1800):
+    """Model check and return (result dict, list of parsed states)."""
+    import tempfile as _tf
+
+    from harness import tlaparse
+
+    d = _tf.mkdtemp(prefix="gf_dump_")
+    try:
+        dump = os.path.join(d, "states.dump")
+        r = model_check(module, cfg, workers=workers, timeout=timeout, extra=["-dump", dump])
+        states = tlaparse.parse_dump(dump)
+    finally:
+        shutil.rmtree(d, ignore_errors=True)
+    return r, states
